@@ -19,6 +19,8 @@
 #include <unistd.h>
 #include <boost/any.hpp>
 #include <boost/mpl/vector.hpp>
+#include <boost/fusion/mpl.hpp>
+#include <boost/fusion/include/mpl.hpp>
 #include <boost/msm/front/state_machine_def.hpp>
 #include <boost/msm/front/functor_row.hpp>
 #include <boost/msm/front/internal_row.hpp>
